@@ -1,5 +1,5 @@
 (* C17 - Reported peak T3 rate brackets the true peak within one jerk increment.  Statements only. *)
-From Plotink Require Import Base.Prelude Spec.Firmware Model.EbbCalc Proofs.PeakProofs Corr.C17 Proofs.PeakOracle.
+From Plotink Require Import Base.Prelude Spec.Firmware Model.EbbCalc Model.EbbCalcRnd Proofs.PeakProofs Corr.C17 Proofs.PeakOracle Proofs.TmidFloat.
 Open Scope Z_scope.
 
 (* never exceeds the true peak: the reported value is the absolute rate of some tick 1..T *)
@@ -33,8 +33,28 @@ Proof. exact t3_peak_is_spec_peak. Qed.
 Example C17_tight : max_rate_t3 4 (-6) (-8) 4 = 10 /\ Z.abs (t3_spec_rate 2 (-6) (-8) 4) = 14 /\ Z.abs (t3_spec_rate 1 (-6) (-8) 4) = 10.
 Proof. repeat split; vm_compute; reflexivity. Qed.
 
+(* max_rate_t3 in the float arithmetic CPython uses (the vertex (jerk/2 - accel)/jerk is a binary64 quotient, compared with 1.5 and
+   time - 1.5 and rounded up by math.ceil; the rates come from rate_t3's float expression): equal to the exact model on the whole domain,
+   for every rounding operator that is monotone and fixes binary64 numbers - so the theorems above speak about the code's arithmetic *)
+Theorem C17_float_exact : forall rnd : Q -> Q,
+  (forall x y, (x == y)%Q -> (rnd x == rnd y)%Q) -> (forall x, rep53 x -> (rnd x == x)%Q) -> (forall x y, (x <= y)%Q -> (rnd x <= rnd y)%Q) ->
+  forall time rate accel jerk, 0 <= time <= 2 ^ 32 -> Z.abs rate <= 2 ^ 34 -> Z.abs accel <= 2 ^ 32 -> Z.abs jerk <= 2 ^ 32 ->
+  Z.abs (2 * accel - jerk) * time <= 2 ^ 50 -> Z.abs jerk * time * time <= 2 ^ 50 ->
+  max_rate_t3_r rnd time rate accel jerk = max_rate_t3 time rate accel jerk.
+Proof. exact max_rate_t3_float_exact. Qed.
+
+(* the hypotheses are satisfiable (the exact operator meets all three), on a move whose vertex 50.5 lies inside the window, so that the
+   quotient, both comparisons and the ceiling are all exercised *)
+Example C17_float_nonvacuous :
+  let rnd := fun x : Q => x in
+  (forall x y, (x == y)%Q -> (rnd x == rnd y)%Q) /\ (forall x, rep53 x -> (rnd x == x)%Q) /\ (forall x y, (x <= y)%Q -> (rnd x <= rnd y)%Q) /\
+  max_rate_t3_r rnd 100 1000 500 (-10) = max_rate_t3 100 1000 500 (-10) /\ max_rate_t3 100 1000 500 (-10) = 13499 /\
+  Z.abs (rate_t3 100 1000 500 (-10)) = 1249.
+Proof. cbv zeta. split; [intros x y E; exact E|]. split; [intros x _; reflexivity|]. split; [intros x y L; exact L|]. repeat split; vm_compute; reflexivity. Qed.
+
 Print Assumptions C17_is_a_tick.
 Print Assumptions C17_ends.
 Print Assumptions C17_within_jerk.
 Print Assumptions C17_limit.
 Print Assumptions C17_oracle_is_peak.
+Print Assumptions C17_float_exact.
